@@ -87,3 +87,19 @@ Theorem C06_default_decision_is_inner_batch_check :
                 (of_list qkey_cmp (combine (poly_point_keys (lc_query_set_to_poly_query_set lcs eqn_qs)) tv)); Ok b).
 Proof. exact @default_decision_is_inner_batch_check. Qed.
 Print Assumptions C06_default_decision_is_inner_batch_check.
+
+(* the default check_combinations of the trait (Hyrax, Ligero, Brakedown), for any scheme: it accepts only if the claimed
+   value of EVERY equation query - every equation at every one of its points - equals the combination of the polynomial
+   evaluations sent with the proof, and the default batch check of those evaluations accepts *)
+From PC Require Import Base.OrdMap Schemes.LC Schemes.DefaultBatch Proofs.DefaultBatchFacts.
+Theorem C06_default_check_combinations_every_claim :
+  forall (FO : FieldOps) (FL : FieldLaws FO) (Comm Proof St : Type)
+         (check : list Comm -> point -> list F -> Proof -> St -> res (bool * St)) lcs cs eqn_qs eqn_ev proofs evs st st',
+    default_check_combinations Comm Proof St check lcs cs eqn_qs eqn_ev proofs (Some evs) st = Ok (true, st') ->
+    let lcm := lcs_map lcs in
+    let pqs := lc_qs_to_poly_qs lcm eqn_qs in
+    let pev := combine (poly_point_keys pqs) evs in
+    Forall (claim_holds lcm pev eqn_ev) eqn_qs /\
+    default_batch_check Comm Proof St check cs pqs (map (fun kv => (fst (fst kv), snd (fst kv), snd kv)) pev) proofs st = Ok (true, st').
+Proof. exact @default_check_combinations_true. Qed.
+Print Assumptions C06_default_check_combinations_every_claim.
